@@ -74,10 +74,9 @@ func init() {
 	})
 }
 
-// cuthist name site rcsite skip oh seq: the SAME stored string through a fixed history of calls
-// (circular, directional) in one process; reply = one (direct, "-") pair per call.
-var c10History = [][2]bool{{true, true}, {false, true}, {true, true}, {false, false}, {false, true}, {true, false}, {true, true}}
-
+// cuthist name site rcsite skip oh seq steps: the SAME stored string through a history of calls in one
+// process; steps = "cd,ld,cn,…" (c/l = circular/linear, d/n = directional/non-directional);
+// reply = one (direct, "-") pair per call.
 func init() {
 	runner.Register("cuthist", func(a []string) ([]string, error) {
 		name, site, rcsite := a[0], a[1], a[2]
@@ -92,8 +91,11 @@ func init() {
 			RecognitionSite: site,
 		}
 		var out []string
-		for _, h := range c10History {
-			out = append(out, c10Direct(clone.Part{Sequence: a[5], Circular: h[0]}, h[1], enzyme), "-")
+		for _, st := range strings.Split(a[6], ",") {
+			if len(st) != 2 {
+				continue
+			}
+			out = append(out, c10Direct(clone.Part{Sequence: a[5], Circular: st[0] == 'c'}, st[1] == 'd', enzyme), "-")
 		}
 		return out, nil
 	})
